@@ -77,7 +77,8 @@ CLAIMS = {
         "mode flags, call log) identical; every state must equal its build() copy, its switch_register(same register) copy, its switch_device(renamed "
         "identical device) copy and, up to depth 2-3, its abstract-repr round trip; every copy then receives calls of every kind "
         "(variable declaration, pulses, delays, phase shifts, align, channel declaration, measure) and the original must keep its "
-        "full snapshot.",
+        "full snapshot; finally the caller edits every list object it passed as an argument (targets, SLM qubits) and the record "
+        "of calls and its replay must not follow.",
         "Known findings (non-atomic multi-step operations under max_sequence_duration, declare_channel with a bad initial "
         "target) are listed in known_findings.json. Bounded depth; fault menu as listed in mc/props/c09.py.",
         "DESIGN.md §3 C09",
@@ -175,7 +176,9 @@ CLAIMS = {
         "for durations <= 5; from_max_val for area x max_val x beta of both signs (never exceeds, exact area, one ns shorter "
         "would exceed for windows > 16 ns), and max_val placed just above / below the peak of the d-ns window for EVERY duration "
         "d = 17..259 (thorough ..699); pulses with phases {-7,-pi,-1e-12,0,1,2pi,7,100}; invalid pulses refused; "
-        "ArbitraryPhase reproduces 6 phase-waveform kinds x 6 durations at every sample through phase_modulation.",
+        "ArbitraryPhase reproduces 6 phase-waveform kinds x 6 durations at every sample through phase_modulation. Object "
+        "histories: every sequence of <= 3 (thorough 4) steps over 10 uses / caller-side edits (constructor buffers, arrays returned "
+        "by samples / modulated_samples / pulse waveforms) on 6 waveform objects vs a pristine object (6.7k histories).",
         "Grid values only; interpolated waveforms whose points coincide after rounding are a don't-care class.",
         "DESIGN.md §3 C16",
     ),
